@@ -1,6 +1,7 @@
 import Monorail.Proofs.Graph
 import Monorail.Props.C03
 import Monorail.Spec.C03
+import Monorail.Proofs.Dfs
 /-!
 # C09 — cyclic graphs are always rejected (graph level)
 -/
@@ -138,6 +139,45 @@ theorem c09_kahn (g : Graph) (hr : InRange g) (roots : List Nat) :
   · rintro ⟨v, hv, hc⟩
     exact c09_reject g hr roots hv hc
 
+/-- **C03 / C09 (the code path, end to end).** `Index::new`'s visibility walks from every requested
+root (the concrete iterative depth-first walk with its `active` set, `Model/Dfs.lean`) followed by
+the concrete counter / queue loop of `get_groups`:
+
+* fails with the cycle error exactly when the abstract `groups` does - i.e. (by `c09_iff`) exactly
+  when some node reachable from the roots lies on a cycle - whether the walk or the loop finds it;
+* otherwise returns exactly what the loop returns on the reachability closure, which `c03_kahn`
+  shows to be a partition of the closure in dependency order.
+
+The walk's own loop terminates (its fuel is proved sufficient). -/
+theorem c09_index_dfs (g : Graph) (hr : InRange g) (roots : List Nat) (hroots : ∀ r ∈ roots, r < g.size) :
+    (indexGroups g roots = .error .cycle ↔ groups g roots = .error .cycle) ∧
+    (∀ cs, indexGroups g roots = .ok cs → kahn g (closure g roots) = .ok cs) := by
+  have hv := visibleOf_spec hr roots [] hroots List.nodup_nil
+  unfold indexGroups
+  generalize visibleOf g roots [] = res at hv
+  cases hv with
+  | ok vis' hmem hnd _ =>
+    have hperm : vis'.Perm (closure g roots) := by
+      apply (List.perm_ext_iff_of_nodup hnd (closure_nodup g roots)).mpr
+      intro x
+      rw [hmem x, mem_closure g hr roots x]
+      constructor
+      · rintro (hx | ⟨r, hrr, hx⟩)
+        · cases hx
+        · exact ⟨r, hrr, hroots r hrr, hx⟩
+      · rintro ⟨r, hrr, _, hx⟩
+        exact Or.inr ⟨r, hrr, hx⟩
+    simp only
+    rw [kahn_perm g hperm]
+    exact ⟨(kahn_groups g roots).1, fun cs h => h⟩
+  | cycle c hreach hcyc =>
+    obtain ⟨r, hrr, hx⟩ := hreach
+    have hc : c ∈ closure g roots := (mem_closure g hr roots c).mpr ⟨r, hrr, hroots r hrr, hx⟩
+    have hg := c09_reject g hr roots hc hcyc
+    refine ⟨?_, ?_⟩
+    · simp [hg]
+    · intro cs h; simp at h
+
 /-- `a` uses a path inside `a/b`, which is nested in `a`: a cycle through uses + nesting -/
 def exNestCycle : Config :=
   [ { path := [97], uses := [[97,47,98,47,120]], ignores := [] },
@@ -146,5 +186,8 @@ def exNestCycle : Config :=
 
 example : labeledGroups (graphOf exNestCycle) [0, 1, 2] = .error .cycle := by decide
 example : labeledGroups (graphOf exNestCycle) [2] = .ok [[2]] := by decide
+example : indexGroups (graphOf exNestCycle) [0, 1, 2] = .error .cycle ∧ indexGroups (graphOf exNestCycle) [2] = .ok [[2]] := by decide
+/-- a diamond is not a cycle for the walk (the pinned tree's `active` set said it was) -/
+example : indexGroups ⟨[[1, 2], [3], [3], []]⟩ [0] = .ok [[0], [2, 1], [3]] := by decide
 
 end Monorail
